@@ -327,11 +327,23 @@ def rule_unfix(run):
     fx = prog.func('mulgrids.fix_blockname')
     ifs = [n for n in walk_no_nested(fx.node) if isinstance(n, ast.If)]
     key = 'mulgrids.fix_blockname :: blank 4th column between digits in columns 3 and 5 becomes 0'
+    # `if a: if b: if c: <repair>` is `if a and b and c: <repair>` when each inner if is the whole body of the outer one
+    nest_conds = []
+    if ifs:
+        top = [st for st in fx.node.body if isinstance(st, ast.If)]
+        cur = top[0] if len(top) == 1 else None
+        while cur is not None:
+            nest_conds.extend(cur.test.values if isinstance(cur.test, ast.BoolOp) and isinstance(cur.test.op, ast.And) else [cur.test])
+            if len(cur.body) == 1 and isinstance(cur.body[0], ast.If) and not cur.orelse and not cur.body[0].orelse: cur = cur.body[0]
+            else: break
+        if cur is not None and len(ifs) > 1 and len(nest_conds) == 3 and all(i_ is cur or any(x is cur for x in ast.walk(i_)) for i_ in ifs):
+            ifs = [ast.copy_location(ast.If(test=ast.BoolOp(op=ast.And(), values=nest_conds), body=cur.body, orelse=cur.orelse), cur)]
     if len(ifs) == 1:
         conds = set(norm(x) for x in (ifs[0].test.values if isinstance(ifs[0].test, ast.BoolOp) and isinstance(ifs[0].test.op, ast.And) else [ifs[0].test]))
         want = set(['name[2].isdigit()', 'name[4].isdigit()', "name[3] == ' '"])
         body = norm(ifs[0].body[0]) if ifs[0].body else ''
-        good_body = body in ("return '0'.join((name[0:3], name[4:5]))", "return name[0:3] + '0' + name[4:5]", "return name[0:3] + '0' + name[4]")
+        good_body = body.replace('name[:3]', 'name[0:3]') in ("return '0'.join((name[0:3], name[4:5]))", "return '0'.join([name[0:3], name[4:5]])",
+                                                              "return name[0:3] + '0' + name[4:5]", "return name[0:3] + '0' + name[4]")
         if conds == want and good_body: run.ok(key, where=fx.where(ifs[0]))
         elif conds != want and (conds < want or want < conds):
             run.violated(key, 'the repair condition is %s' % sorted(conds), where=fx.where(ifs[0]))
